@@ -63,9 +63,11 @@ def run(rep, tier):
         rule_reseed_limit(rep, m, b.cfg.name)
         rule_status(rep, m, b.cfg.name)
         rule_mixer(rep, m, b.cfg.name)
+    rule_rekey_semantic(rep, tier)
     n = len(builds)
     rep.floor("C15.D1", 6 * n)
-    rep.floor("C15.D1s", 4 * n)
+    rep.floor("C15.D1s", 2 * n)      # shape clause; the behaviour of the re-key step is decided by D1r
+    rep.floor("C15.D1r", 4)
     rep.floor("C15.D2", 4 * n)
     rep.floor("C15.D3", 3 * n)
     rep.floor("C15.D4", 5 * n)
@@ -258,6 +260,9 @@ def rule_rekey_shape(rep, m, cname):
     z = [c for c in inloop if c.callee == "ascon_overwrite_with_zeroes"]
     p = [c for c in inloop if c.callee == "ascon_permute"]
     if len(z) != 1 or len(p) != 1:
+        rep.unproved_item(rid, "%s: the re-key loop body has %d zeroing and %d permutation calls (shape not recognised; the "
+                          "behaviour is decided by C15.D1r)" % (cname, len(z), len(p)))
+        return
         rep.violation(rid, "rekey:body", f.src, "loop body has %d zeroing and %d permutation calls" % (len(z), len(p)),
                       config=cname)
         return
@@ -681,3 +686,60 @@ def rule_mixer(rep, m, cname):
     else:
         rep.violation(rid, "ascon_trng_reseed:order", f.src, "the mixer's reseed is not add-entropy, zero rate (0,8), "
                       "permute with 12 rounds in that order", config=cname)
+
+
+def rule_rekey_semantic(rep, tier):
+    """D1r: what the re-key step does to the sponge state, per back end layout:
+    interpret ascon_random_rekey over bit expressions with the permutation as a
+    function symbol.  From an aligned state S the result must be
+    (P12 . Z)^4 (S) where Z zeroes the 64 rate bits of the canonical state; with
+    pending absorbed bytes the pending block is permuted in first.  This is
+    independent of how the zeroing is written (call, macro, direct stores)."""
+    from . import modes, sponge
+    from .affine import Unsupported, Ptr, const_bits, ZERO
+    rid = "C15.D1r"
+    rep.rule(rid, "re-key maps the sponge state S to (P12 . zero-the-rate)^4 (S), for every state, in each state layout")
+    cfgs = [repo.Config("c64"), repo.Config("c32")] if tier == "quick" else \
+        [repo.Config("c64"), repo.Config("c32"), repo.Config("direct"), repo.Config("generic")]
+    for js, cname, layout, maxs, units in modes.prepare(tier, cfgs=cfgs):
+        m = modes.load_module(js)
+        if cname not in rep.configs:
+            rep.configs.append(cname)
+        f = m.funcs.get("ascon_random_rekey")
+        tx = m.ditype_by_typedef("ascon_xof_state_t")
+        tr = m.ditype_by_typedef("ascon_random_state_t")
+        if f is None or f.decl or not tx or not tr:
+            raise repo.AnalysisBroken("%s: ascon_random_rekey / state types not found in %s" % (rid, cname))
+        ox = {mem[0]: mem[1] for mem in tx["members"]}
+        oxof = {mem[0]: mem[1] for mem in tr["members"]}.get("xof")
+        if oxof is None or not {"state", "count", "mode"} <= set(ox):
+            raise repo.AnalysisBroken("%s: unexpected members in %s" % (rid, cname))
+        for pending in (0, 5):
+            try:
+                R = modes.Run(m, layout, maxs)
+                st = R.obj(tr["size"])
+                S = sponge.sym_bytes("S", 40)
+                base = oxof + ox["state"]
+                R.mc.store(Ptr(st.obj, base), tuple(sponge.mem_from_canon(tuple(S), layout)))
+                R.mc.store(Ptr(st.obj, oxof + ox["count"]), const_bits(pending, 8))
+                R.mc.store(Ptr(st.obj, oxof + ox["mode"]), const_bits(0, 8))
+                R.call("ascon_random_rekey", st)
+                got = sponge.canon_from_mem(R.mc.load(Ptr(st.obj, base), 40), layout)
+                want = list(S)
+                if pending:
+                    want = list(R.spec.P(want, 12))
+                for _ in range(4):
+                    want = [ZERO] * 64 + list(want[64:])
+                    want = list(R.spec.P(want, 12))
+            except Unsupported as e:
+                rep.unproved_item(rid, "%s (pending %d): %s" % (cname, pending, e))
+                continue
+            d = modes.first_diff(tuple(got), tuple(want))
+            if d:
+                rep.violation(rid, "ascon_random_rekey:%s" % ("aligned" if not pending else "pending"), f.src,
+                              "ascon_random_rekey does not map the sponge state to (P12 . zero-the-rate)^4%s: the resulting state "
+                              "differs at %s - part of the previous rate (and with it of the last output block) survives or the "
+                              "permutation count is wrong" % (" after permuting the pending block in" if pending else "", d),
+                              config=cname)
+            else:
+                rep.instance(rid, 1, {"config": cname, "pending_bytes": pending})
